@@ -180,6 +180,30 @@ func GenProject(r *core.Rng, flavour string) Project {
 		for s := 0; s < ns; s++ {
 			fmt.Fprintf(&b, "fn Label%d_%d() -> str {\n    return \"%s:%s:%d\";\n}\n\n", i, s, me, core.Pick(r, []string{"alpha", "beta", "gamma", "delta"}), s)
 		}
+		// language features whose analyses keep their own tables (narrowing of
+		// optionals, borrows, map iteration, results, counted loops)
+		if !plain {
+			if r.Chance(1, 3) {
+				fmt.Fprintf(&b, "fn Opt%d(a: i32?, b: i32?) -> i32 {\n    if a != none {\n        if b != none {\n            return a + b;\n        }\n        return a;\n    }\n    let z0: i32 = %d;\n    let d: i32 = b ?? z0;\n    return d;\n}\n\n", i, r.Intn(9))
+				body = append(body, fmt.Sprintf("acc = acc + Opt%d(%d, none) + Opt%d(1, %d);", i, r.Intn(9), i, r.Intn(9)))
+			}
+			if r.Chance(1, 3) {
+				fmt.Fprintf(&b, "fn Peek%d(r: &i32) -> i32 {\n    let v: i32 = r;\n    return v;\n}\n\nfn Ref%d() -> i32 {\n    let x: i32 = %d;\n    let y: i32 = %d;\n    let bx: Box = { .V = 1 };\n    let rx: &i32 = &x;\n    let ry: &i32 = &y;\n    let rb: &i32 = &bx.V;\n    let s: i32 = Peek%d(rx) + Peek%d(ry) + Peek%d(rb);\n    let m: &'i32 = &'y;\n    m = 9;\n    return s + y;\n}\n\n", i, i, r.Intn(9), r.Intn(9), i, i, i)
+				body = append(body, fmt.Sprintf("acc = acc + Ref%d();", i))
+			}
+			if r.Chance(1, 3) {
+				fmt.Fprintf(&b, "fn Tally%d() -> i32 {\n    let m := { \"a\" => %d, \"b\" => 2, \"c\" => 3 } as map[str]i32;\n    let t: i32 = 0;\n    for name, v in m {\n        t = t + v + len(name);\n    }\n    return t;\n}\n\n", i, r.Intn(9))
+				body = append(body, fmt.Sprintf("acc = acc + Tally%d();", i))
+			}
+			if r.Chance(1, 3) {
+				fmt.Fprintf(&b, "fn Div%d(a: i32, b: i32) -> str ! i32 {\n    if b == 0 {\n        return \"%s: division by zero\"!;\n    }\n    return a / b;\n}\n\nfn Res%d() -> i32 {\n    let q := Div%d(6, 3) catch -1;\n    let z := Div%d(6, 0) catch e {\n        let unused%d := e;\n    } -2;\n    return q + z;\n}\n\n", i, me, i, i, i, i)
+				body = append(body, fmt.Sprintf("acc = acc + Res%d();", i))
+			}
+			if r.Chance(1, 3) {
+				fmt.Fprintf(&b, "fn Meet%d(n: i32) -> i32 {\n    let i: i32 = 0;\n    let j: i32 = n;\n    let t: i32 = 0;\n    while i < j {\n        i++;\n        j--;\n        t = t + i * j;\n    }\n    return t;\n}\n\n", i)
+				body = append(body, fmt.Sprintf("acc = acc + Meet%d(%d);", i, r.Range(2, 12)))
+			}
+		}
 		// calls into the imports
 		for _, j := range imports[i] {
 			body = append(body, fmt.Sprintf("acc = acc + %s::Run();", ref(j)))
@@ -203,11 +227,26 @@ func GenProject(r *core.Rng, flavour string) Project {
 		// deliberate errors
 		if errMods[i] {
 			for e := r.Range(1, 3); e > 0; e-- {
-				kind := r.Intn(13)
+				kind := r.Intn(18)
 				if kind >= 4 && kind <= 6 && len(imports[i]) == 0 {
 					kind = r.Intn(4)
 				}
 				switch kind {
+				case 13: // flow analysis: two counters that both move away from the exit condition
+					fmt.Fprintf(&b, "fn Spin%d_%d(n: i32) -> i32 {\n    let lo: i32 = 0;\n    let hi: i32 = n;\n    while lo < hi {\n        lo--;\n        hi++;\n    }\n    return lo + hi;\n}\n\n", i, e)
+					body = append(body, fmt.Sprintf("acc = acc + Spin%d_%d(3);", i, e))
+				case 14: // several branches without a return
+					fmt.Fprintf(&b, "fn Fall%d_%d(a: i32) -> i32 {\n    let t: i32 = 0;\n    if a == 1 {\n        t = 1;\n    } else if a == 2 {\n        t = 2;\n    } else if a == 3 {\n        return 3;\n    } else {\n        t = 4;\n    }\n}\n\n", i, e)
+					body = append(body, fmt.Sprintf("acc = acc + Fall%d_%d(2);", i, e))
+				case 15: // borrow conflict
+					fmt.Fprintf(&b, "fn Clash%d_%d() -> i32 {\n    let x: i32 = 1;\n    let y: i32 = 2;\n    let ry: &i32 = &y;\n    let m: &'i32 = &'x;\n    let r: &i32 = &x;\n    m = 2;\n    let v: i32 = r;\n    let w: i32 = ry;\n    return v + w;\n}\n\n", i, e)
+					body = append(body, fmt.Sprintf("acc = acc + Clash%d_%d();", i, e))
+				case 16: // loop without an exit
+					fmt.Fprintf(&b, "fn Forever%d_%d(n: i32) -> i32 {\n    let t: i32 = n;\n    while true {\n        t = t + 1;\n    }\n    return t;\n}\n\n", i, e)
+					body = append(body, fmt.Sprintf("acc = acc + Forever%d_%d(1);", i, e))
+				case 17: // optional used without a check
+					fmt.Fprintf(&b, "fn Raw%d_%d(a: i32?, b: i32?) -> i32 {\n    if a != none {\n        return a + b;\n    }\n    return 0;\n}\n\n", i, e)
+					body = append(body, fmt.Sprintf("acc = acc + Raw%d_%d(1, 2);", i, e))
 				case 9: // too many arguments
 					body = append(body, fmt.Sprintf("let many%d := MakeItem(1, 2, %d);", e, e))
 				case 10: // too few arguments
